@@ -117,14 +117,16 @@ class Keys:
 class Fn:
   """Compiles one function body to Gallina (continuation style: the rest of the block is duplicated under both
   branches of an `if`, so every path is straight-line and definedness is checked per path)."""
-  def __init__(self, fn, consts, keys, pure_fns, self_attrs=None, ignorable_methods=()):
+  def __init__(self, fn, consts, keys, pure_fns, self_attrs=None, ignorable_methods=(), tls_objects=None):
     self.fn, self.consts, self.keys, self.pure_fns = fn, consts, keys, pure_fns
+    self.tls_objects = dict(tls_objects or {})   # parameter holding a threading.local -> key namespace
     self.self_attrs = dict(self_attrs or {})      # attribute name -> initial Gallina value (class based managers)
     self.ignorable = set(ignorable_methods)
     a = fn.args
     if a.posonlyargs or a.vararg:
       raise TranslationError('%s: unsupported parameter list' % fn.name)
     self.params = [x.arg for x in a.args] + [x.arg for x in a.kwonlyargs] + ([a.kwarg.arg] if a.kwarg else [])
+    self.params = [x for x in self.params if x not in self.tls_objects]
     self.key_params = set()
     self.used_keys = []
     self.assigned = set()
@@ -158,20 +160,25 @@ class Fn:
     return 'p_' + name
 
   # -- expressions ---------------------------------------------------------------------------------
-  def K(self, node):
+  def K(self, node, ns='tls'):
     if isinstance(node, ast.Constant) and isinstance(node.value, str):
       self.used_keys.append(node.value)
-      return self.keys.ident('tls', node.value)
+      return self.keys.ident(ns, node.value)
     if isinstance(node, ast.Name):
       if node.id in self.key_params:
         return self.var(node.id)
       if node.id in self.consts:
         self.used_keys.append(self.consts[node.id])
-        return self.keys.ident('tls', self.consts[node.id])
+        return self.keys.ident(ns, self.consts[node.id])
     if isinstance(node, ast.Attribute) and isinstance(node.value, ast.Name) and node.attr in self.consts \
         and node.value.id in ('self', 'cls'):
-      return self.keys.ident('tls', self.consts[node.attr])
+      return self.keys.ident(ns, self.consts[node.attr])
     self.err(node, 'unrecognised key expression %s' % ast.dump(node))
+
+  def tls_call(self, call, name, nargs):
+    """getattr(tls, KEY, default) / setattr(tls, KEY, value) on a parameter that holds a threading.local"""
+    return (isinstance(call.func, ast.Name) and call.func.id == name and len(call.args) == nargs and not call.keywords
+            and isinstance(call.args[0], ast.Name) and call.args[0].id in self.tls_objects)
 
   def E(self, node, env):
     if isinstance(node, ast.Constant):
@@ -192,6 +199,8 @@ class Fn:
       if nm in env:
         return self.var(nm)
       self.err(node, 'attribute self.%s has no known value here' % node.attr)
+    if isinstance(node, ast.Attribute) and isinstance(node.value, ast.Name) and node.attr == 'cascade' and node.value.id in env:
+      return '(py_attr_cascade %s)' % self.var(node.value.id)
     if isinstance(node, ast.IfExp):
       return '(if %s then %s else %s)' % (self.C(node.test, env), self.E(node.body, env), self.E(node.orelse, env))
     if isinstance(node, ast.Subscript):
@@ -209,6 +218,10 @@ class Fn:
       if p in PRIMS_WRITE:
         self.err(node, '%s used as an expression' % p)
       f = node.func
+      if self.tls_call(node, 'getattr', 3):
+        return '(tl_get %s %s st)' % (self.K(node.args[1], self.tls_objects[node.args[0].id]), self.E(node.args[2], env))
+      if isinstance(f, ast.Attribute) and f.attr == 'get' and len(node.args) == 2 and not node.keywords:
+        return '(py_dict_get %s %s %s)' % (self.E(f.value, env), self.E(node.args[0], env), self.E(node.args[1], env))
       if isinstance(f, ast.Attribute) and f.attr == 'copy' and not node.args and not node.keywords:
         return '(py_copy %s)' % self.E(f.value, env)
       if isinstance(f, ast.Name) and f.id == 'dict' and len(node.args) == 1 and not node.keywords:
@@ -231,6 +244,9 @@ class Fn:
         return '(negb (is_none %s))' % self.E(node.left, env)
     if isinstance(node, ast.UnaryOp) and isinstance(node.op, ast.Not):
       return '(negb %s)' % self.C(node.operand, env)
+    if isinstance(node, ast.BoolOp):
+      op = ' && ' if isinstance(node.op, ast.And) else ' || '
+      return '(' + op.join(self.C(v, env) for v in node.values) + ')'
     if isinstance(node, (ast.Name, ast.Attribute)):
       return '(truthy %s)' % self.E(node, env)
     self.err(node, 'unrecognised condition %s' % ast.dump(node))
@@ -250,6 +266,18 @@ class Fn:
       if len(names) != len(s.targets):
         self.err(s, 'unsupported del')
       return self.S(rest, [e for e in env if e not in names], k, ind)
+    if isinstance(s, ast.Assign) and len(s.targets) == 1 and isinstance(s.targets[0], ast.Subscript) \
+        and isinstance(s.targets[0].value, ast.Name):
+      x = s.targets[0].value.id
+      if x not in env or x in self.params or x not in self.fresh_copies:
+        self.err(s, 'item assignment on %s which is not known to be a fresh local copy (aliasing)' % x)
+      return '%slet %s := py_setitem %s %s %s in\n%s' % (pad, self.var(x), self.var(x), self.E(s.targets[0].slice, env), self.E(s.value, env),
+                                                         self.S(rest, env, k, ind))
+    if isinstance(s, ast.Expr) and isinstance(s.value, ast.Call) and self.tls_call(s.value, 'setattr', 3):
+      c = s.value
+      return '%slet st := tl_set %s %s st in\n%s' % (pad, self.K(c.args[1], self.tls_objects[c.args[0].id]), self.E(c.args[2], env), self.S(rest, env, k, ind))
+    if isinstance(s, ast.For):
+      return self.loop(s, rest, env, k, ind)
     if isinstance(s, ast.Assign) and len(s.targets) == 1:
       t = s.targets[0]
       if isinstance(t, ast.Name):
@@ -291,6 +319,44 @@ class Fn:
       b = self.S(list(s.orelse) + rest, env, k, ind + 1)
       return '%sif %s then\n%s\n%selse\n%s' % (pad, c, a, pad, b)
     self.err(s, 'unrecognised statement %s' % type(s).__name__)
+
+  def loop(self, s, rest, env, k, ind):
+    """for a, b in X.items(): body   ->   fold over the dict with the single loop-carried variable"""
+    pad = '  ' * ind
+    ok = (isinstance(s.target, ast.Tuple) and len(s.target.elts) == 2 and all(isinstance(e, ast.Name) for e in s.target.elts)
+          and isinstance(s.iter, ast.Call) and isinstance(s.iter.func, ast.Attribute) and s.iter.func.attr == 'items'
+          and isinstance(s.iter.func.value, ast.Name) and not s.iter.args and not s.orelse)
+    if not ok:
+      self.err(s, 'unsupported for loop (only `for a, b in X.items():`)')
+    for n in ast.walk(ast.Module(body=list(s.body), type_ignores=[])):
+      if isinstance(n, (ast.Break, ast.Continue, ast.Return, ast.Yield, ast.YieldFrom, ast.Raise, ast.For, ast.While, ast.Try, ast.With)):
+        self.err(n, 'unsupported control flow inside a for loop')
+      if isinstance(n, ast.Call) and (self.prim(n) in PRIMS_WRITE or self.tls_call(n, 'setattr', 3)):
+        self.err(n, 'thread-local write inside a for loop')
+    kv = [e.id for e in s.target.elts]
+    src = s.iter.func.value.id
+    if src not in env or src in kv:
+      self.err(s, 'loop source %s' % src)
+    assigned = set()
+    for n in ast.walk(ast.Module(body=list(s.body), type_ignores=[])):
+      if isinstance(n, ast.Name) and isinstance(n.ctx, ast.Store):
+        assigned.add(n.id)
+      if isinstance(n, ast.Subscript) and isinstance(n.ctx, ast.Store) and isinstance(n.value, ast.Name):
+        assigned.add(n.value.id)
+      if isinstance(n, ast.Call) and isinstance(n.func, ast.Attribute) and n.func.attr == 'update' and isinstance(n.func.value, ast.Name):
+        assigned.add(n.func.value.id)
+    carried = sorted(a for a in assigned if a in env and a not in kv)
+    if len(carried) != 1:
+      self.err(s, 'a for loop must update exactly one variable defined before it, found %s' % carried)
+    c = carried[0]
+    for a in assigned - {c} - set(kv):
+      # iteration-local names must not be read after the loop
+      for n in ast.walk(ast.Module(body=list(rest), type_ignores=[])):
+        if isinstance(n, ast.Name) and n.id == a:
+          self.err(n, 'loop-local variable %s is used after the loop' % a)
+    body = self.S(list(s.body), env + [x for x in kv if x not in env], lambda e: '  ' * (ind + 2) + self.var(c), ind + 2)
+    return '%slet %s := py_for_items %s %s (fun %s %s %s =>\n%s) in\n%s' % (
+        pad, self.var(c), self.var(src), self.var(c), self.var(c), self.var(kv[0]), self.var(kv[1]), body, self.S(rest, env, k, ind))
 
   def _scan_fresh(self, stmts):
     """locals that are assigned exactly once, from x.copy() / dict(x) / utils.merge / a fresh helper result"""
@@ -367,7 +433,7 @@ def _split_cm(fn, who):
     raise TranslationError('%s: try has handlers/else or no finally' % who)
   for s in body[:-1]:
     for n in ast.walk(s):
-      if isinstance(n, (ast.Yield, ast.YieldFrom, ast.Try, ast.With, ast.For, ast.While, ast.Return, ast.Raise)):
+      if isinstance(n, (ast.Yield, ast.YieldFrom, ast.Try, ast.With, ast.While, ast.Return, ast.Raise)):
         raise TranslationError('%s: unsupported control flow before try' % who)
   tb = list(t.body)
   if not tb or not (isinstance(tb[-1], ast.Expr) and isinstance(tb[-1].value, ast.Yield)):
@@ -597,6 +663,20 @@ def translate(repo=None):
   if '_TLS_KEY_CONTEXTUAL_OVERRIDES' not in cc:
     raise TranslationError('contextual: key constant not found')
   keys.add('contextual', cc['_TLS_KEY_CONTEXTUAL_OVERRIDES'], 'k_contextual')
+  f = _find_fn(cx, 'contextual_scope')
+  if [a.arg for a in f.args.args] != ['tls'] or f.args.kwarg is None:
+    raise TranslationError('contextual_scope signature')
+  en, ex = _split_cm(f, 'contextual_scope')
+  text, _ = Fn(f, cc, keys, {}, tls_objects={'tls': 'contextual'}).manager('contextual_scope', en, ex)
+  defs.append('(* contextual.py: contextual_scope (called with the module\'s threading.local) *)\n' + text)
+  co = _find_fn(cx, 'contextual_override')
+  if ast.dump(_strip_doc(co.body)[-1]) != ("Return(value=Call(func=Name(id='contextual_scope', ctx=Load()), args=[Name(id='_global_contextual_overrides', ctx=Load())], "
+                                          "keywords=[keyword(value=Name(id='vs', ctx=Load()))]))"):
+    raise TranslationError('contextual_override no longer returns contextual_scope(_global_contextual_overrides, **vs)')
+  gs = _find_fn(cx, 'get_contextual_override')
+  if ast.dump(_strip_doc(gs.body)[-1]) != ("Return(value=Call(func=Name(id='get_scoped_value', ctx=Load()), args=[Name(id='_global_contextual_overrides', ctx=Load()), "
+                                          "Name(id='var_name', ctx=Load())], keywords=[]))"):
+    raise TranslationError('get_contextual_override no longer reads _global_contextual_overrides')
   glob = [n for n in cx.body if isinstance(n, ast.Assign) and ast.dump(n.targets[0]) == "Name(id='_global_contextual_overrides', ctx=Store())"]
   if len(glob) != 1 or 'threading' not in ast.dump(glob[0].value) or 'local' not in ast.dump(glob[0].value):
     raise TranslationError('contextual: _global_contextual_overrides is no longer a threading.local()')
